@@ -205,7 +205,7 @@ example : ((zrun {} exCalls).bind (zstep · .up)).isNone = true := by decide
 set_option maxRecDepth 100000 in
 /-- the code this property's model mirrors still has the shape the model was written against (control-flow
     skeletons regenerated from /repo on every run, Model/SkeletonsMore) -/
-theorem facts_model_skeleton : Generated.F12.builder = SkeletonsMore.builder := by decide +kernel
+theorem facts_model_skeleton : Generated.F12.builder = SkeletonsMore.builder := by rfl
 
 /-! ### translated code: the builder's methods, regenerated from builder.go on every run (Generated/T3.lean) -/
 
